@@ -78,14 +78,28 @@ def batch(draw):
         out = draw(st.integers(0, 4)) == 0
         # out-structs may only nest structs; plain structs may not nest out-structs
         earlier = [s for s in items if depth_of(items, ["struct", s["name"], []]) <= 1 and (out or not s["out"])]
-        k = draw(st.integers(1, 8))
+        # a third of the structs are small and scalar-only (1-3 fields: primitives, enums, earlier small structs): the wasm C ABI
+        # treats aggregates of one, two, three and four-or-more scalars differently, nested or not
+        small = draw(st.integers(0, 2)) == 0
+        k = draw(st.integers(1, 3)) if small else draw(st.integers(1, 8))
         fields = []
         for j in range(k):
+            if small:
+                smalls = [s_ for s_ in earlier if s_.get("_small") and not s_["out"]]
+                kind = draw(st.sampled_from(["prim", "prim", "prim", "enum"] + (["struct", "struct"] if smalls else [])))
+                if kind == "prim":
+                    ft = ["prim", draw(st.sampled_from(PRIMS))]
+                elif kind == "enum":
+                    ft = ["enum", draw(st.sampled_from(sorted(ENUMS)))]
+                else:
+                    ft = ["struct", draw(st.sampled_from(smalls))["name"], []]
+                fields.append([FIELD_NAMES[j], ft, []])
+                continue
             fields.append([FIELD_NAMES[j], draw(field_type(earlier, out)), []])
         fields_perm = draw(st.permutations(fields))
         fields = [[FIELD_NAMES[j], f[1], []] for j, f in enumerate(fields_perm)]
         borrows = any(ir.type_lifetimes(f[1]) for f in fields)
-        items.append({"kind": "struct", "name": "S%d" % i, "attrs": [], "out": out, "lifetimes": [["a", []]] if borrows else [], "fields": fields, "impls": []})
+        items.append({"kind": "struct", "name": "S%d" % i, "attrs": [], "out": out, "lifetimes": [["a", []]] if borrows else [], "fields": fields, "impls": [], "_small": small})
     abi_mode = draw(st.sampled_from(["legacy", "spec"]))
     values = {}
     for s in items:
